@@ -7,6 +7,7 @@ from scapy.layers.inet import IP, TCP
 from scapy.layers.inet6 import IPv6
 from tlexport.tlsrecord import TlsRecord
 from math import floor
+from tlexport import _verif
 
 
 class OutputBuilder:
@@ -100,6 +101,7 @@ class OutputBuilder:
                 dport=self.server_port, sport=self.client_port, flags='A', seq=1, ack=1)
 
         self.out.extend([(syn, self.ts_zero), (syn_ack, self.ts_zero), (ack, self.ts_zero)])
+        _verif.emit("out_hs", ts=repr(self.ts_zero), sport=self.server_port, cport=self.client_port)
 
     def build_server_packet(self, decrypted, ts):
         record_len = len(decrypted)
@@ -137,6 +139,7 @@ class OutputBuilder:
 
             self.out.append((packet, ts[i]))
             self.out.append((packet_ack, ts[i]))
+            _verif.emit("out", dir="s", seq_after=self.server_seq, ack=self.client_seq, len=len(parts[i]), ts=repr(ts[i]), part=i, nparts=len(parts), ncarriers=len(ts))
 
     def build_client_packet(self, decrypted, ts):
         record_len = len(decrypted)
@@ -175,3 +178,4 @@ class OutputBuilder:
                     dport=self.client_port, sport=self.server_port, flags='A', seq=self.server_seq, ack=self.client_seq)
             self.out.append((packet, ts[i]))
             self.out.append((packet_ack, ts[i]))
+            _verif.emit("out", dir="c", seq_after=self.client_seq, ack=self.server_seq, len=len(parts[i]), ts=repr(ts[i]), part=i, nparts=len(parts), ncarriers=len(ts))
